@@ -3039,7 +3039,10 @@ impl CommandParser {
         }
         let key = Self::extract_bytes(&frames[1])?;
         let strategy = Self::extract_string(&frames[2])?;
-        let threshold = Self::extract_string(&frames[3])?.parse::<usize>()
+        // XTRIM key MAXLEN [=|~] threshold, as the command handler accepts it
+        let modifier = Self::extract_string(&frames[3])?;
+        let threshold_frame = if (modifier == "=" || modifier == "~") && frames.len() >= 5 { &frames[4] } else { &frames[3] };
+        let threshold = Self::extract_string(threshold_frame)?.parse::<usize>()
             .map_err(|_| FerrousError::Command(CommandError::InvalidIntegerValue))?;
         Ok(StreamCommand::XTrim { key, strategy, threshold })
     }
